@@ -60,7 +60,8 @@ try:
     dst = os.path.join('/verif/refactors', name)
     os.makedirs(dst, exist_ok=True)
     for f in ('patch.diff', 'demo.py'):
-        shutil.copy(os.path.join(inc, f), dst)
+        if os.path.realpath(os.path.join(inc, f)) != os.path.realpath(os.path.join(dst, f)):
+            shutil.copy(os.path.join(inc, f), dst)
     meta = json.load(open(os.path.join(inc, 'meta.json')))
     meta.update({'checked_by_integrator': ran, 'check_outcome': outcome, 'broken_ties': ties[:3], 'concrete_alarms': concrete[:3],
                  'base_commit': subprocess.check_output(['git', '-C', '/repo', 'rev-parse', '--short', 'HEAD'], text=True).strip()})
